@@ -6,6 +6,34 @@ THEOREMS = ["Bld.as_map_unfold", "Bld.size_pow2", "Bld.place_spec", "Bld.as_map_
 IMPORTS = ["SocVerif.Props.C17"]
 
 
+def digit_scope_probe():
+    """fixed programs: an Index(n) scope and a Cluster whose name is the decimal string of n are different scopes — the same
+    register name may be used under both, at one level and nested; both registers are placed, named by their own paths"""
+    from amaranth_soc import csr
+    fails, n = [], 0
+    for nest in ((), ("ch",), (2,)):
+        for d in (0, 1, 7):
+            n += 1
+            b = csr.Builder(addr_width=6, data_width=8)
+            try:
+                import contextlib
+                with contextlib.ExitStack() as st:
+                    for x in nest:
+                        st.enter_context(b.Cluster(x) if isinstance(x, str) else b.Index(x))
+                    with b.Index(d):
+                        b.add("r", csr.Register(csr.Field(csr.action.RW, 8), access="rw"))
+                    with b.Cluster(str(d)):
+                        b.add("r", csr.Register(csr.Field(csr.action.RW, 8), access="rw"))
+                got = sorted((tuple(nm) for _, nm, _ in b.as_memory_map().resources()), key=str)
+                want = sorted([tuple(nest) + (d, "r"), tuple(nest) + (str(d), "r")], key=str)
+                if got != want:
+                    fails.append(f"Index({d}) and Cluster('{d}') under {nest}: the map names the registers {got}, expected {want}")
+            except (ValueError, TypeError) as e:
+                fails.append(f"a register `r` under Index({d}) and another `r` under Cluster('{d}') (scopes {nest}): refused with "
+                             f"{type(e).__name__}: {str(e)[:100]} — the integer {d} and the string '{d}' are different scope names")
+    return fails, n
+
+
 def run(rep, tier):
     lib.proof_gate(rep, PROP, THEOREMS, IMPORTS)
     n = 500 if tier == "quick" else 160000
@@ -14,6 +42,11 @@ def run(rep, tier):
                                 nontrivial=lambda r: r["stats"]["explicit"] >= 1 and r["stats"]["scoped"] >= 1 and r["stats"]["regs_placed"] >= 2,
                                 sample_fmt=lambda r: {"program": r["lines"][:12], "answers": r["obs"][:11]}, opt_sample=64)
     rep.coverage.update(agg)
+    dfails, dn = digit_scope_probe()
+    rep.coverage["digit_scope_programs"] = dn
+    for what in dfails[:2]:
+        rep.violation({"kind": "spec-violation", "what": what, "match": {"experiment": "digit-scopes"},
+                       "how_to_replay": "harness.props.c17.digit_scope_probe()"}, True, "C17: " + what)
     # ---- bounded-exhaustive validation (support for the tie, not a proof): EVERY builder program of k operations
     from .. import buildersim
     k = 2 if tier == "quick" else 3
